@@ -1,6 +1,7 @@
 import Spydr.Common.Proto
 import Spydr.IR.Model
 import Spydr.IR.NamesModel
+import Spydr.IR.Events
 open Lean Spydr.Proto Spydr.IR
 
 def getOptInt (j : Json) (k : String) : Except String (Option Int) :=
@@ -169,19 +170,64 @@ def ndump (s : N) (els : List El) : Json :=
 
 end NamesDrv
 
+def jEvent : Event → Json
+  | .addLibrary n l => Json.arr #["netlist_add_library", jn n, jn l]
+  | .removeLibrary n l => Json.arr #["netlist_remove_library", jn n, jn l]
+  | .addDefinition l d => Json.arr #["library_add_definition", jn l, jn d]
+  | .removeDefinition l d => Json.arr #["library_remove_definition", jn l, jn d]
+  | .addPort d p => Json.arr #["definition_add_port", jn d, jn p]
+  | .removePort d p => Json.arr #["definition_remove_port", jn d, jn p]
+  | .addCable d c => Json.arr #["definition_add_cable", jn d, jn c]
+  | .removeCable d c => Json.arr #["definition_remove_cable", jn d, jn c]
+  | .addChild d i => Json.arr #["definition_add_child", jn d, jn i]
+  | .removeChild d i => Json.arr #["definition_remove_child", jn d, jn i]
+  | .addPin p q => Json.arr #["port_add_pin", jn p, jn q]
+  | .removePin p q => Json.arr #["port_remove_pin", jn p, jn q]
+  | .addWire c w => Json.arr #["cable_add_wire", jn c, jn w]
+  | .removeWire c w => Json.arr #["cable_remove_wire", jn c, jn w]
+  | .connect w r => Json.arr #["wire_connect_pin", jn w, jPin r]
+  | .disconnect w r => Json.arr #["wire_disconnect_pin", jn w, jPin r]
+  | .reference i d => Json.arr #["instance_reference", jn i, ofOptNat d]
+  | .topInstance n i => Json.arr #["netlist_top_instance", jn n, Json.arr #["i", ofOptNat i]]
+  | .topDefinition n d => Json.arr #["netlist_top_instance", jn n, Json.arr #["d", jn d]]
+  | .createInstance i => Json.arr #["create_instance", jn i]
+
 structure DState where
   s : S
   n : Spydr.Names.N
+  d : D
+
+def jDEvent : DEvent → Json
+  | .set e k v => Json.arr #["dictionary_set", jn e, Json.str k, Json.str v]
+  | .delete e k => Json.arr #["dictionary_delete", jn e, Json.str k]
+  | .pop e k => Json.arr #["dictionary_pop", jn e, Json.str k]
+
+def dopOf (j : Json) : Except String DOp := do
+  let t ← getStr j "t"
+  match t with
+  | "set" => pure (.set (← getNat j "e") (← getStr j "k") (← getStr j "v"))
+  | "del" => pure (.del (← getNat j "e") (← getStr j "k"))
+  | "pop" => pure (.pop (← getNat j "e") (← getStr j "k"))
+  | _ => throw s!"unknown data op {t}"
 
 def handle (st : DState) (j : Json) : Except String (DState × Json) := do
   let s := st.s
   let cmd ← getStr j "cmd"
   match cmd with
-  | "reset" => pure ({ st with s := S.init }, Json.mkObj [("ok", Json.bool true)])
+  | "reset" => pure ({ st with s := S.init, d := D.init }, Json.mkObj [("ok", Json.bool true)])
+  | "dop" =>
+    let op ← dopOf (← j.getObjVal? "op")
+    let (d', ok) := dstep st.d op
+    pure ({ st with d := d' }, Json.mkObj [("ok", Json.bool ok),
+      ("events", Json.arr ((devents st.d op).map jDEvent).toArray)])
+  | "dget" =>
+    pure (st, NamesDrv.jOptStr (st.d.val (← getNat j "e") (← getStr j "k")))
   | "op" =>
     let op ← opOf (← j.getObjVal? "op")
     let (s', r) := step s op
-    pure ({ st with s := s' }, Json.mkObj [("res", Json.str (resStr r))])
+    let nI := countOf j "nI"
+    pure ({ st with s := s' }, Json.mkObj [("res", Json.str (resStr r)),
+      ("events", Json.arr ((eventsOf s nI op).map jEvent).toArray)])
   | "dump" => pure (st, dump s (← j.getObjVal? "n"))
   | "nreset" => pure ({ st with n := Spydr.Names.N.init }, Json.mkObj [("ok", Json.bool true)])
   | "nop" =>
@@ -201,4 +247,4 @@ def handle (st : DState) (j : Json) : Except String (DState × Json) := do
                           ("scanCI", NamesDrv.jOptEl (st.n.scanCI p kd v))])
   | _ => throw s!"unknown cmd {cmd}"
 
-def main : IO Unit := run handle { s := S.init, n := Spydr.Names.N.init }
+def main : IO Unit := run handle { s := S.init, n := Spydr.Names.N.init, d := D.init }
